@@ -35,6 +35,19 @@ def gen_line(rng, regdefs):
     return text[:i] + rng.choice("#x 9") + text[i + 1:]
 
 
+def ref_data(r, line):
+    from .c03 import ref_interp
+    out = []
+    if r.get("delim") is None:
+        for fd in r["fields"]:
+            out.append(ref_interp(fd, line[fd["start"]: fd["start"] + fd["size"]]))
+    else:
+        toks = [t.strip() for t in line.split(r["delim"])][1:]
+        for i, fd in enumerate(r["fields"]):
+            out.append(ref_interp(fd, toks[i][: fd["size"]]) if i < len(toks) else None)
+    return out
+
+
 class CHECK(Check):
     pid = "C04"
     entry = "REGFILE"
@@ -142,6 +155,10 @@ class CHECK(Check):
                 ref = Line([LiteralField(r["digits"], 0)] + [fl.mk_field(fd) for fd in r["fields"]], delimiter=r.get("delim")).read(line)[1:]
                 if e[1] != [fl.canon_value(x) for x in ref]:
                     return "typed element data differ from what its layout reads from that line alone"
+                # the same, stated without the library: every field reads the reference interpretation (C03) of its own span of
+                # the line -- or, in a delimited layout, of its own blank-trimmed token cut to the field's width
+                if e[1] != ref_data(r, line):
+                    return "typed element data differ from the reference interpretation of the fields' spans / tokens of that line"
         return None
 
     def nontrivial(self, case, obs):
